@@ -376,46 +376,63 @@ def handleP (decls hist copies : String) : String :=
 /-! ## `T`: CTrait function-pointer state -/
 
 open TraitsVerif.Model.FuncIndex in
+def showOutcome : Outcome → String
+  | .ok => "ok"
+  | .traitError => "TraitError"
+  | .valueError => "ValueError"
+  | .unmodelled => "?"
+
+open TraitsVerif.Model.FuncIndex in
+/-- ops: `new k`, `validate k`, `delegate p`, `property g s v hv`, `post b`, `default k`, `probe`. -/
 def handleT (ops : String) : String :=
-  let rec go (t : Option Fns) : List String → String
+  let rec go (t : Option Raw) (probe : Bool) : List String → String
     | [] =>
       match t with
       | none => "none"
-      | some t =>
+      | some r =>
+        let t := r.fns
         match getstateIdx t with
         | none => "getstate-out-of-table"
         | some i =>
           let rt := match setstateIdx i with
             | some t' => if t' = t then "same" else "differs"
             | none => "setstate-out-of-table"
-          s!"idx {i.getattr} {i.setattr} {i.postSetattr} {i.validate} {i.delegateAttrName} {rt}"
+          s!"idx {i.getattr} {i.setattr} {i.postSetattr} {i.validate} {i.delegateAttrName} {rt}" ++
+            (if probe then s!" probe={showOutcome (probeGet r)},{showOutcome (probeSet r)},{showOutcome (probeDel r)}"
+             else "")
     | op :: ops =>
       match words op, t with
       | ["new", k], _ =>
         match int? k with
         | some k => match traitNew k with
-          | some t => go (some t) ops
+          | some t => go (some { fns := t }) probe ops
           | none => "err TraitError"
         | none => "bad-case"
-      | ["validate", k], some t =>
+      | ["validate", k], some r =>
         match int? k with
-        | some k => match apply t (.setValidate k) with
-          | some t => go (some t) ops
+        | some k => match apply r.fns (.setValidate k) with
+          | some t => go (some { r with fns := t }) probe ops
           | none => "err ValueError"
         | none => "bad-case"
-      | ["delegate", p], some t =>
+      | ["delegate", p], some r =>
         match int? p with
-        | some p => go (apply t (.delegate p)) ops
+        | some p => go ((apply r.fns (.delegate p)).map (fun t => { r with fns := t, delegated := true })) probe ops
         | none => "bad-case"
-      | ["property", g, s, v, hv], some t =>
+      | ["property", g, s, v, hv], some r =>
         match int? g, int? s, int? v with
-        | some g, some s, some v => match apply t (.setProperty g s v (hv == "1")) with
-          | some t => go (some t) ops
+        | some g, some s, some v => match apply r.fns (.setProperty g s v (hv == "1")) with
+          | some t => go (some { r with fns := t }) probe ops
           | none => "err ValueError"
         | _, _, _ => "bad-case"
-      | ["post", b], some t => go (apply t (.setPostSetattr (b == "1"))) ops
+      | ["post", b], some r =>
+        go ((apply r.fns (.setPostSetattr (b == "1"))).map (fun t => { r with fns := t })) probe ops
+      | ["default", k], some r =>
+        match int? k with
+        | some k => if defaultValueTypeOk k then go (some { r with dvt := k.toNat }) probe ops else "err ValueError"
+        | none => "bad-case"
+      | ["probe"], some r => go (some r) true ops
       | _, _ => "bad-case"
-  go none (fields ops ";")
+  go none false (fields ops ";")
 
 /-! ## `R`: reference ledger -/
 
